@@ -17,5 +17,11 @@ CLAIMS = {
         'relational twin: a view re-based by symbolic f in [-2,2]^D and its zero-based twin designate the same elements under shifted indexing, slicing, iteration and elements(); the full C02 elements() laws are re-proved on re-based views. '
         'The C01 step family and the C02 begin/end laws themselves run with symbolic index bases in [-2,2].',
    note='Bounds: extents<=3, strides<=6, |base|<=2, D<=3 (elements laws D<=2). Assignment/reextent/equality of re-based OWNING arrays are exercised in C05/C06/C07 harnesses with the FB parameter. Same trusted base as C01.'),
+ 'C20': dict(
+   text='(1) In the default build every library assertion reachable from the valid-use harnesses (C01 step family, C02 laws; also proved inside every other property\'s check) is proved unreachable-to-fail for all inputs in the bounds. '
+        '(2) Must-fire: for an ARBITRARY view and an index outside its extension (leading, inner, const and mutable overloads, call syntax, elements_at) and for assignment between views of different extents (copy, move, converting, temporary-on-the-left forms), '
+        'the statement after the call is proved unreachable, a library assertion is shown to fire (solver witness replayed natively), and no pointer check fails on the path prefix. '
+        '(3) The same valid-use harnesses compiled with -DNDEBUG and with -DBOOST_MULTI_ASSERT_DISABLE satisfy the same functional specification, hence give identical observable results in all three configurations.',
+   note='Bounds as C01/C02 at D=2 for (1),(3); D=1..3, extents<=3, strides<=4 for (2). (3) is established through the common specification rather than a product program. Same trusted base as C01.'),
  'C16': dict(not_applicable='every clause is about which C++ expressions are well-formed / what type overload resolution yields (is_assignable, is_invocable, copy-constructibility): const-ness is erased before LLVM IR exists, there is no run-time behaviour to execute symbolically; the deciding procedure is the C++ type checker, not an SMT/SAT solver (DESIGN.md C16)'),
 }
